@@ -177,10 +177,27 @@ Proof.
   destruct b as [|c b]; cbn [find is_empty negb first_nonempty]; [exact IH|reflexivity].
 Qed.
 
+(* The same fact independent of how the selection is spelled AFTER the `find` (`.map(..).unwrap_or(..)`, `.map_or(.., ..)`,
+   `match`, `if let`): `find p bufs`, for ANY predicate that is pointwise "not empty", is `Some` of the hand model's
+   first_nonempty, or `None` when that is empty; the case analysis on first_nonempty then decides every spelling. *)
+Lemma find_first_nonempty (p : list N -> bool) (bufs : list (list N)) :
+  (forall b, p b = negb (is_empty b)) ->
+  find p bufs = match first_nonempty bufs with [] => None | b => Some b end.
+Proof.
+  intros Hp. induction bufs as [|b rest IH]; [reflexivity|].
+  cbn [find first_nonempty]. rewrite Hp. destruct b as [|c b]; cbn [is_empty negb]; [exact IH|reflexivity].
+Qed.
+
+Ltac select_first_nonempty bufs :=
+  match goal with
+  | |- context [find ?p bufs] => rewrite (find_first_nonempty p bufs) by (intros [|? ?]; reflexivity)
+  end;
+  destruct (first_nonempty bufs); cbn [opt_unwrap_or option_map].
+
 Lemma g_ss_write_vectored_first x bufs : g_ss_write_vectored x bufs = g_ss_write x (first_nonempty bufs).
 Proof.
-  unfold g_ss_write_vectored. cbv zeta. rewrite find_nonempty_is_first_nonempty.
-  destruct (g_ss_write x (first_nonempty bufs)) as [[x1 r]|]; reflexivity.
+  unfold g_ss_write_vectored. cbv zeta. select_first_nonempty bufs.
+  all: match goal with |- context [g_ss_write ?y ?b] => destruct (g_ss_write y b) as [[? ?]|] end; reflexivity.
 Qed.
 
 (* ---- the entry point: one operation of the stream, and whole operation sequences ---------- *)
